@@ -62,7 +62,12 @@ type c20DCase struct {
 type c20DModel struct {
 	Out   []string   `json:"out"`
 	Kinds [][]string `json:"kinds"`
+	// accept / reject of some Compile depends on the order in which Workflow.compile replays the
+	// recorded inputs (it ranges over a Go map): the model answers for declaration order
+	Sensitive bool `json:"sensitive"`
 }
+
+const c20DOrderSig = "C20:nondeterministic:workflow-compile:input-replay-order"
 
 type c20DObs struct {
 	Out   []string `json:"out"` // ok | error/<class> | panic
@@ -243,7 +248,7 @@ func c20DModelStr(m *c20DModel, i int) string {
 	case "ok", "panic":
 		return m.Out[i]
 	}
-	return "error/" + strings.Join(m.Kinds[i], "|")
+	return "error/" + strings.Join(c20SortedCopy(m.Kinds[i]), "|")
 }
 
 // c20DHasBadBranchEnd: some recorded Workflow branch names an end node no Add…Node call declared
@@ -344,6 +349,10 @@ func c20DCheck(ctx *vh.Ctx, c *c20DCase, repeats int) (*c20Diff, *c20DModel, *c2
 	}
 	obs := c20DExec(c)
 	if d := c20DCompare(c, &m, &obs); d != nil {
+		if m.Sensitive && !strings.HasPrefix(d.sig, "C20:panic:") {
+			// the model says the outcome of this declaration depends on the replay order
+			return &c20Diff{c20DOrderSig, "accept / reject depends on the order Workflow.compile replays the recorded inputs in (Go map iteration); this attempt: " + d.what}, &m, &obs, nil
+		}
 		return d, &m, &obs, nil
 	}
 	// the same declarations, declared and compiled afresh: accept / reject must not vary (which of
@@ -360,6 +369,10 @@ func c20DCheck(ctx *vh.Ctx, c *c20DCase, repeats int) (*c20Diff, *c20DModel, *c2
 					// the panic of the undeclared branch end, reached or not depending on which failing sub-graph Go's map order visits first
 					return &c20Diff{"C20:panic:workflow-compile:branch-end-undeclared",
 						fmt.Sprintf("attempt %d: Compile %d panicked (%v; first attempt %v)", k+1, i, o.Out, obs.Out)}, &m, &obs, nil
+				}
+				if m.Sensitive {
+					return &c20Diff{c20DOrderSig,
+						fmt.Sprintf("attempt %d of the same declarations gave %v, the first attempt %v (the model: the outcome depends on the order Workflow.compile replays the recorded inputs in)", k+1, o.Out, obs.Out)}, &m, &obs, nil
 				}
 				return &c20Diff{"C20:nondeterministic:decl-compile",
 					fmt.Sprintf("attempt %d of the same declarations gave %v, the first attempt %v", k+1, o.Out, obs.Out)}, &m, &obs, nil
@@ -394,6 +407,9 @@ func c20DOne(ctx *vh.Ctx, c *c20DCase, repeats int) error {
 	ctx.Res.Dist("decl.first=" + strings.SplitN(c20DModelStr(m, 0), "|", 2)[0])
 	if len(m.Kinds[0]) > 1 {
 		ctx.Res.Dist("decl.several-failing-subgraphs")
+	}
+	if m.Sensitive {
+		ctx.Res.Dist("decl.replay-order-sensitive")
 	}
 	ctx.Res.Dist(fmt.Sprintf("decl.compiles=%d", len(c.Compiles)))
 	if compiled {
@@ -461,6 +477,7 @@ func c20DGenWf(r *vh.Rand, depth int, inT, outT string) *c20Decl {
 	names := []string{"a", "b", "c"}
 	cur, prev := inT, "start"
 	outs := map[string]string{"start": inT}
+	isPT := map[string]bool{} // a pass-through node's type is whatever inference gives it: no field mappings from it
 	for i := 0; i < n; i++ {
 		nd := c20DNode{Key: names[i]}
 		// the data source: the previous node (or START), sometimes an earlier one
@@ -492,7 +509,7 @@ func c20DGenWf(r *vh.Rand, depth int, inT, outT string) *c20Decl {
 			if r.Chance(55) {
 				nd.SubOpts = c20DCopts(r, nd.Sub.API == "workflow")
 			}
-		case r.Chance(8):
+		case r.Chance(10):
 			nd.PT = true
 			out = from
 		default:
@@ -516,7 +533,7 @@ func c20DGenWf(r *vh.Rand, depth int, inT, outT string) *c20Decl {
 		}
 		if src != "" {
 			in1 := c20WfIn{From: src, Kind: kind}
-			if kind != "dep" && from == "c2" && in == "c2" && nd.Sub == nil && !nd.PT && r.Chance(50) {
+			if kind != "dep" && from == "c2" && in == "c2" && nd.Sub == nil && !nd.PT && !isPT[src] && r.Chance(50) {
 				in1.Mapped = true
 			}
 			nd.Ins = append(nd.Ins, in1)
@@ -537,6 +554,7 @@ func c20DGenWf(r *vh.Rand, depth int, inT, outT string) *c20Decl {
 		}
 		d.Nodes = append(d.Nodes, nd)
 		outs[nd.Key] = out
+		isPT[nd.Key] = nd.PT
 		cur, prev = out, nd.Key
 	}
 	if outT == "" {
@@ -562,7 +580,7 @@ func c20DGenWf(r *vh.Rand, depth int, inT, outT string) *c20Decl {
 			d.EndIn = append(d.EndIn, c20WfIn{From: c20Pick(r, names[:n]), Kind: "indirect"})
 		}
 	default:
-		d.EndIn = []c20WfIn{{From: prev, Kind: "input", Mapped: cur == "c2" && d.OutT == "c2" && r.Chance(40)}}
+		d.EndIn = []c20WfIn{{From: prev, Kind: "input", Mapped: cur == "c2" && d.OutT == "c2" && !isPT[prev] && r.Chance(40)}}
 		if n > 1 && r.Chance(25) {
 			d.EndIn = append(d.EndIn, c20WfIn{From: names[0], Kind: "dep"})
 		}
@@ -734,6 +752,10 @@ func c20DFixed() []*c20DCase {
 		mk("wf-trigger-mode-nested", graphWith(okWf(), &c20Op{Op: "compile", Mode: "all"}), three),
 		mk("branch-only-entry", wf([]c20DNode{lam("a", in("start", "indirect")), lam("b", in("start", "indirect"))}, []c20WfIn{in("a", "input")},
 			c20Op{Op: "branch", S: "start", T: "c0", Ends: []string{"a", "b"}, Pick: "a"}), three),
+		mk("pass-through-typed-by-first-edge", &c20Decl{API: "workflow", InT: "c1", OutT: "c2",
+			Nodes: []c20DNode{{Key: "a", PT: true, Ins: []c20WfIn{in("start", "input")}},
+				{Key: "b", In: "any", Out: "c0", Dyn: "c0", Ins: []c20WfIn{in("a", "input")}}},
+			EndIn: []c20WfIn{in("b", "dep"), in("a", "indirect")}}, three),
 		mk("branch-end-undeclared", wf([]c20DNode{lam("a", in("start", "input"))}, []c20WfIn{in("a", "input")},
 			c20Op{Op: "branch", S: "a", T: "c0", Ends: []string{"end", "ghost"}, Pick: "end"}), three),
 	}
